@@ -38,10 +38,7 @@ h2_done(struct mmgr *mm, IMB_JOB *job, void *arg)
                 if (cur_items[i] == it) {
                         uint64_t h = 0xcbf29ce484222325ULL;
                         item_check(it, job, "C15", mm, "after re-init");
-                        if (it->cipher != IMB_CIPHER_NULL)
-                                h = fnv1(h, it->inplace ? it->src + it->c_off : it->dst, it->dst_len);
-                        if (it->tag_len)
-                                h = fnv1(h, it->tag, it->tag_len);
+                        h = item_output_hash(it);
                         cur_tr->outh[i] = h ^ (uint64_t) job->status;
                         last_ret = i;
                         return;
